@@ -1124,6 +1124,10 @@ def lin_of(e, subst):
         if e.id in subst:
             return lin_of(subst[e.id], subst)
         return ("lin", Lin({e.id: 1}))
+    # the integer value of an index-like argument is the argument
+    if isinstance(e, ast.Call) and len(e.args) == 1 and not e.keywords \
+            and norm(e.func) in ("operator.index", "int", "index"):
+        return lin_of(e.args[0], subst)
     if isinstance(e, ast.Call) and isinstance(e.func, ast.Name):
         if e.func.id == "len" and len(e.args) == 1:
             a = e.args[0]
